@@ -347,6 +347,9 @@ func seq(a, b string) string {
 }
 
 func quoteSym(s string) string {
+	if strings.ContainsAny(s, "|\\") {
+		s = strings.NewReplacer("|", "!", "\\", "!").Replace(s)
+	}
 	for _, c := range s {
 		if !(c >= 'a' && c <= 'z' || c >= 'A' && c <= 'Z' || c >= '0' && c <= '9' || c == '_' || c == '!' || c == '.' || c == '$') {
 			return "|" + s + "|"
